@@ -24,6 +24,18 @@ Inductive kase :=
 (* CP_PLSR.transform(X, Y)[1]: means, loadings, columns of coef_, Y loadings, X, Y -> Y score columns *)
 | KPlsrTransformY (xmean ymean : tensor Q) (loads : list (list (tensor Q))) (bs : list (list Q)) (qs : list (tensor Q))
                   (X Y : tensor Q) (expected : list (list Q))
+(* CP_PLSR.fit run to convergence: as KPlsrFit with a real tolerance; compared only when the model's stopping
+   decisions have a margin (same result with 0.8 tol and 1.25 tol) *)
+| KPlsrFitConv (n_iter ncomp : nat) (tol : Q) (itape : list (tensor Q * list (tensor Q))) (btape : list (list Q))
+           (X Y : tensor Q) (e_loads : list (list (tensor Q))) (e_scores : list (list Q))
+           (e_yloads : list (tensor Q)) (e_yscores : list (list Q))
+(* CPRegressor.fit: the loop around the concrete ridge blocks.  tape = the factors after pass 1, 2, ... (from runs with
+   n_iter_max = 1, 2, ... and no stopping); T.solve answers are read from the tape and, from pass 2 on, certified
+   (A x = B) against the model's design matrices; the run (n_iter_max, tol) must store eW / efs *)
+| KCpLoop (n_iter : nat) (tol reg : Q) (R : nat) (so : list nat) (X y : tensor Q) (tape : list (list (tensor Q)))
+          (eW : tensor Q) (efs : list (tensor Q))
+(* TuckerRegressor.fit: the loop with the passes played back from the tape of (core, factors) *)
+| KTkLoop (n_iter : nat) (tol : Q) (tape : list (tensor Q * list (tensor Q))) (eW : tensor Q)
 (* T.mean(X, axis=0) and the centring *)
 | KMean (X expected : tensor Q)
 (* the whole of CP_PLSR.fit with a fixed number of passes (tol = 0: never stops early; tol huge: stops after the
@@ -66,6 +78,54 @@ Definition solve_of {A} (tape : list (list Q)) (G : list (list A)) (b : list A) 
 Fixpoint all2 {A B} (f : A -> B -> bool) (a : list A) (b : list B) : bool :=
   match a, b with [], [] => true | x :: a', y :: b' => f x y && all2 f a' b' | _, _ => false end.
 
+Local Open Scope nat_scope.
+Definition plsr_run (n_iter ncomp : nat) (tol : Q) itape btape (X Y : tensor Q) :=
+  fit_cp Zfx zsqrt (fun Z => map t_to_fx (init_of itape (t_of_fx Z)))
+         (fun G b => map to_fx (solve_of btape G b)) (to_fx tol) n_iter ncomp (t_to_fx X) (t_to_fx Y).
+Definition plsr_close (r : plsr (F:=Z)) e_loads e_scores e_yloads e_yscores : bool :=
+  all2 (all2 (fun a e => qt_close ftol ftol (t_of_fx a) e)) (loadings r) e_loads &&
+  all2 (fun a e => q_list_close ftol ftol (map of_fx a) e) (fitted_scores r) e_scores &&
+  all2 (fun a e => qt_close ftol ftol (t_of_fx a) e) (map (c_yload (F:=Z)) (comps r)) e_yloads &&
+  all2 (fun a e => q_list_close ftol ftol (map of_fx a) e) (map (c_yscore (F:=Z)) (comps r)) e_yscores.
+Definition zl_eqb (a b : list Z) : bool := z_list_eqb a b.
+Definition plsr_same (a b : plsr (F:=Z)) : bool :=
+  all2 zl_eqb (fitted_scores a) (fitted_scores b) && all2 (all2 zt_eqb) (loadings a) (loadings b).
+
+(* ---- the regressors' loop ---- *)
+Definition znorm (t : tensor Z) : Z := zsqrt (fold_left (fun acc x => Z.add acc (fmul Zfx x x)) (data t) 0%Z).
+Definition zsmall (tol : Z) (a b : Z) : bool := Z.leb (fdiv Zfx (Z.abs (a - b)) a) tol.
+Definition zclose (a b : Z) : bool :=       (* |a - b| <= 1e-7 (1 + |a| + |b|) in fixed point *)
+  Z.leb (Z.abs (a - b) * 10000000) (Z.shiftl 1 fxb + Z.abs a + Z.abs b).
+Definition zt_close (a b : tensor Z) : bool := nat_list_eqb (shape a) (shape b) && all2 zclose (data a) (data b).
+(* A x for a vector or matrix x *)
+Definition zmatmul (A x : tensor Z) : tensor Z :=
+  let p := nth 0 (shape A) 0 in let q := nth 1 (shape A) 0 in
+  match shape x with
+  | [_] => tabulate [p] (fun idx => fsumn Zfx q (fun t => fmul Zfx (tget Zfx A [nth 0 idx 0; t]) (tget Zfx x [t])))
+  | _ => tabulate [p; nth 1 (shape x) 0]
+           (fun idx => fsumn Zfx q (fun t => fmul Zfx (tget Zfx A [nth 0 idx 0; t]) (tget Zfx x [t; nth 1 idx 0])))
+  end.
+(* the recorded answer of T.solve for block i: the new factor in the layout solve returns it *)
+Definition solve_answer (kin : nat) (Wnew : tensor Z) (i : nat) : tensor Z :=
+  if i <? kin then reshape [prod (shape Wnew)] Wnew else mtranspose Zfx Wnew.
+Definition solve_chk (check : bool) (kin : nat) (newfs : list (tensor Z)) (i : nat) (A B : tensor Z) : tensor Z :=
+  let x := solve_answer kin (nth i newfs (mk [] [])) i in
+  if negb check || zt_close (zmatmul A x) B then x else mk [] [].
+Definition ones_fx (R : nat) : tensor Z := tabulate [R] (fun _ => f1 Zfx).
+Definition cp_loop_run (n_iter : nat) (tol reg : Q) (R : nat) (so : list nat) (X y : tensor Q) (tape : list (list (tensor Q))) :=
+  let Xz := t_to_fx X in let yz := t_to_fx y in let kin := length (sshape X) in
+  let sweep := fun st : nat * list (tensor Z) =>
+    let newfs := map t_to_fx (nth (fst st) tape []) in
+    (S (fst st), cp_sweep Zfx (solve_chk (0 <? fst st) kin newfs) (to_fx reg) Xz yz so R
+                   (if fst st =? 0 then newfs else snd st)) in
+  reg_fit sweep (fun st => Regress.cp_to_tensor Zfx (ones_fx R) (snd st)) znorm (zsmall (to_fx tol)) n_iter (0, []).
+Definition tk_loop_run (n_iter : nat) (tol : Q) (tape : list (tensor Q * list (tensor Q))) :=
+  reg_fit S (fun k => let e := nth (k - 1) tape (mk [] [], []) in
+                      Regress.tucker_to_tensor Zfx (t_to_fx (fst e)) (map t_to_fx (snd e)))
+          znorm (zsmall (to_fx tol)) n_iter 0.
+Definition passes_eq {P} (a b : res (reg_stored (F:=Z) (P:=P))) (f : P -> nat) : bool :=
+  match a, b with Ok x, Ok y => Nat.eqb (f (r_blocks x)) (f (r_blocks y)) | _, _ => false end.
+
 Definition agree_k (k : kase) : bool :=
   match k with
   | KPredCPZ W X e => res_eqb zt_eqb (predict_cp Zops W X) e
@@ -85,6 +145,26 @@ Definition agree_k (k : kase) : bool :=
   | KPlsrPredict xm ym loads coef yl X e =>
       qt_close atol rtol (t_of_fx (plsr_predict Zfx (t_to_fx xm) (t_to_fx ym) (map (map t_to_fx) loads) (t_to_fx coef) (t_to_fx yl) (t_to_fx X))) e
   | KMean X e => qt_close atol rtol (t_of_fx (mean0 Zfx (t_to_fx X))) e
+  | KPlsrFitConv n_iter ncomp tol itape btape X Y e_loads e_scores e_yloads e_yscores =>
+      let lo := plsr_run n_iter ncomp (tol * (4 # 5))%Q itape btape X Y in
+      let hi := plsr_run n_iter ncomp (tol * (5 # 4))%Q itape btape X Y in
+      if plsr_same lo hi then plsr_close lo e_loads e_scores e_yloads e_yscores else true
+  | KCpLoop n_iter tol reg R so X y tape eW efs =>
+      let lo := cp_loop_run n_iter (tol * (4 # 5))%Q reg R so X y tape in
+      let hi := cp_loop_run n_iter (tol * (5 # 4))%Q reg R so X y tape in
+      if passes_eq lo hi fst then
+        match lo with
+        | Ok st => qt_close ftol ftol (t_of_fx (r_weight_tensor st)) eW &&
+                   all2 (fun a e => qt_close ftol ftol (t_of_fx a) e) (snd (r_blocks st)) efs
+        | Err => false
+        end
+      else true
+  | KTkLoop n_iter tol tape eW =>
+      let lo := tk_loop_run n_iter (tol * (4 # 5))%Q tape in
+      let hi := tk_loop_run n_iter (tol * (5 # 4))%Q tape in
+      if passes_eq lo hi (fun k => k) then
+        match lo with Ok st => qt_close ftol ftol (t_of_fx (r_weight_tensor st)) eW | Err => false end
+      else true
   | KPlsrTransformY xm ym loads bs qs X Y e =>
       let Tc := transform_cols Zfx (center Zfx (t_to_fx X) (t_to_fx xm)) (map (map t_to_fx) loads) in
       all2 (fun a x => q_list_close atol rtol (map of_fx a) x)
